@@ -1572,7 +1572,11 @@ pub fn matches_expect(e: &Expect, out: &Outcome) -> bool {
         Expect::ErrAny => out.is_err(),
         Expect::Traversal => matches!(out, Outcome::Ok(Val::Entries(..))),
         Expect::PanicWith(parts) => match out {
-            Outcome::Panic(m) => parts.iter().all(|p| m.contains(p)),
+            // (the macros print the path in Debug form: a tab in a name shows as \t there)
+            Outcome::Panic(m) => parts.iter().all(|p| {
+                let dbg = format!("{:?}", p);
+                m.contains(p) || m.contains(dbg.trim_matches('"'))
+            }),
             _ => false,
         },
         Expect::Any => !matches!(out, Outcome::Panic(_)),
